@@ -412,6 +412,26 @@ static void trsm_case(const vh_args_t *a, int variant, int entry) {
   vh_free_all();
 }
 
+/* the table-based left solves with an explicit k for every size n = 1 .. 8k + 9: whole blocks of 8k rows, tails of every
+ * length handled k rows at a time, and the last, shorter chunk */
+static void trsm_sweep_case(int variant, int k, int n) {
+  static const char *nm[] = {"trsm_upper_right", "trsm_lower_right", "trsm_lower_left", "trsm_upper_left"};
+  int w = vh_pick((int[]){1, 40, 64, 70, 130}, 5);
+  mzd_t *T = vh_mk(n, n, -1);
+  fill_tri(T, variant == 3);
+  mzd_t *B = vh_mk(n, w, -1);
+  vh_fill_kind(B, vh_pick((int[]){0, 0, 1, 3}, 4));
+  vh_ev_t e;
+  vh_begin(&e, nm[variant]);
+  vh_pi(&e, "cutoff", 0); vh_pi(&e, "entry", 2); vh_pi(&e, "k", k);
+  vh_opnd(&e, "T", 'i', T); vh_opnd(&e, "B", 'b', B);
+  vh_pre(&e);
+  if (VH_CALL(&e)) { if (variant == 2) _mzd_trsm_lower_left_russian(T, B, k); else _mzd_trsm_upper_left_russian(T, B, k); }
+  VH_END(&e);
+  vh_post(&e);
+  vh_free_all();
+}
+
 int fam_trsm(const vh_args_t *a) {
   int ncases = a->cases ? a->cases : (a->tier ? 4000 : 640);
   for (long idx = 0; idx < ncases; idx++) {
@@ -423,6 +443,17 @@ int fam_trsm(const vh_args_t *a) {
     trsm_case(a, variant, entry);
     VH_CASE_END
   }
+  if (strstr(a->extra, "nosweep")) return 0;
+  long sidx = 3000000;
+  static const int KS[] = {1, 3, 8};
+  for (int ki = 0; ki < 3; ki++)
+    for (int n = 1; n <= 8 * KS[ki] + 9; n++, sidx++) {
+      if (!VH_SHARD(a, sidx)) continue;
+      vh_case_seed(a, sidx);
+      VH_CASE(sidx)
+      trsm_sweep_case(2 + (int)(sidx % 2), KS[ki], n);
+      VH_CASE_END
+    }
   return 0;
 }
 
